@@ -14,6 +14,7 @@ import (
 	"compress/gzip"
 	"context"
 	"crypto/sha256"
+	"encoding/json"
 	"fmt"
 	"math/rand"
 	"os"
@@ -226,6 +227,42 @@ func runArchive(sb *sandbox, ents []tarEnt, named string) string {
 	return res + " " + diffSnap(before, sb.snapshot())
 }
 
+// runRestore: a blob under a harmless name, then a manifest whose layer lists the same bytes
+// under `title` (Store.restoreDuplicates materialises it).
+func runRestore(sb *sandbox, title string) string {
+	ctx := context.Background()
+	oldwd, _ := os.Getwd()
+	os.Chdir(sb.cwd)
+	defer os.Chdir(oldwd)
+	os.Setenv("TMPDIR", filepath.Join(sb.root, "systmp"))
+	before := sb.snapshot()
+	st, err := file.New(sb.wd)
+	if err != nil {
+		panic(err)
+	}
+	data := []byte("duplicated-payload")
+	plain := ocispec.Descriptor{MediaType: "application/vnd.verif.blob", Digest: digest.FromBytes(data), Size: int64(len(data))}
+	good := plain
+	good.Annotations = map[string]string{ocispec.AnnotationTitle: "ok.txt"}
+	res := "ok"
+	if err := st.Push(ctx, good, bytes.NewReader(data)); err != nil {
+		res = "blob-err"
+	}
+	other := plain
+	other.Annotations = map[string]string{ocispec.AnnotationTitle: title}
+	m := ocispec.Manifest{MediaType: ocispec.MediaTypeImageManifest, Config: plain, Layers: []ocispec.Descriptor{good, other}}
+	m.SchemaVersion = 2
+	mb, _ := json.Marshal(m)
+	md := ocispec.Descriptor{MediaType: ocispec.MediaTypeImageManifest, Digest: digest.FromBytes(mb), Size: int64(len(mb))}
+	if err := st.Push(ctx, md, bytes.NewReader(mb)); err != nil {
+		res += "+manifest-err"
+	} else {
+		res += "+manifest-ok"
+	}
+	st.Close()
+	return res + " " + diffSnap(before, sb.snapshot())
+}
+
 func runC11(seed int64, tier string, sc *Script) map[string]any {
 	rng := rand.New(rand.NewSource(seed))
 	tmp, err := os.MkdirTemp("", "verif-c11-")
@@ -338,6 +375,25 @@ func runC11(seed int64, tier string, sc *Script) map[string]any {
 	// named blobs with hostile titles
 	for _, n := range []string{"a", "a/b", "../x", "a/../../x", "a/../b", "./a", "a//b", "ABS:outside/newfile", "ABS:p1/p2/wd/inside", "..", ".", "a/..", "../wd/x", "../../p2/victim"} {
 		runOne("named", nil, n)
+	}
+	// titles that reach the disk through duplicate restoration: content stored under a good
+	// name, then a manifest listing the same bytes under another title
+	for _, n := range []string{"sub/inside.txt", "../escape.txt", "sub/../../../outside/victim", "ABS:outside/victim", "../../victim",
+		"ok/../../x", "ABS:outside/newfile", "..", "a/../../p2/victim"} {
+		sc.Case("restore-duplicate")
+		sc.NonTrivial()
+		sb := newSandbox(tmp, idx)
+		idx++
+		title := n
+		if strings.HasPrefix(title, "ABS:") {
+			title = filepath.Join(sb.root, strings.TrimPrefix(title, "ABS:"))
+		}
+		res := runRestore(sb, title)
+		os.RemoveAll(sb.root)
+		f := strings.Fields(res)
+		sc.Op("ok", "pf tar ents=- named=- via=%s res=%s outside=%s why=-", n, f[0], f[1])
+		evals++
+		sc.Count("restore:" + f[0])
 	}
 	// exhaustive: all archives of up to two entries
 	for _, a := range kinds {
